@@ -71,7 +71,13 @@ fn run(ctx: &mut Ctx) -> Verdict {
         return super::agent::history(ctx, super::agent::Focus::C01);
     }
     let n = ctx.pick(if ctx.tier == Tier::Thorough { 12 } else { 6 });
-    let policies: Vec<RunningPolicy> = (0..n).map(|i| gen_policy(ctx, i)).collect();
+    let mut policies: Vec<RunningPolicy> = (0..n).map(|i| gen_policy(ctx, i)).collect();
+    if n >= 2 && ctx.chance(1, 8) {
+        // two statements of one name (a list key Junos keeps unique, but the reader must not pick one of them silently)
+        let j = 1 + ctx.pick(n - 1);
+        let i = ctx.pick(j);
+        policies[j].name = policies[i].name.clone();
+    }
     let dup_xmlns = ctx.pick(2) == 1;
     let mut doc = data_doc(&render_running(&policies, dup_xmlns));
     if ctx.chance(1, 4) {
@@ -83,6 +89,7 @@ fn run(ctx: &mut Ctx) -> Verdict {
     // independent selection
     let mut want: BTreeSet<(String, String)> = BTreeSet::new();
     let mut has_annotated_other_body = false;
+    let mut selected_names: Vec<&str> = Vec::new();
     for p in &policies {
         if p.active == Some(false) {
             continue;
@@ -91,11 +98,16 @@ fn run(ctx: &mut Ctx) -> Verdict {
         let Ok(parsed) = e.parse::<MpFilterExpr>() else { continue };
         if p.body == Body::DefaultReject {
             want.insert((p.name.clone(), parsed.to_string()));
+            selected_names.push(&p.name);
         } else {
             has_annotated_other_body = true;
         }
     }
     ctx.nontrivial = !want.is_empty();
+    let duplicate_selected = selected_names.iter().enumerate().any(|(k, a)| selected_names[..k].contains(a));
+    if duplicate_selected {
+        ctx.count("probe.two_selected_statements_of_one_name");
+    }
     if has_annotated_other_body {
         ctx.count("probe.annotated_statement_with_other_body");
     }
@@ -134,10 +146,14 @@ fn run(ctx: &mut Ctx) -> Verdict {
         }
         Err(e) => {
             ctx.count("outcome.rejected");
-            if !has_annotated_other_body {
+            if duplicate_selected {
+                ctx.note("reply with two selected statements of one name was rejected as a whole");
+            } else if !has_annotated_other_body {
                 return Verdict::violation("valid-configuration-rejected", format!("{e}; document {}", doc.chars().take(600).collect::<String>()));
             }
-            ctx.note("reply with an annotated, active statement of other content was rejected as a whole");
+            if !duplicate_selected {
+                ctx.note("reply with an annotated, active statement of other content was rejected as a whole");
+            }
         }
     }
     Verdict::Pass
@@ -150,7 +166,7 @@ pub static C16: PropSpec = PropSpec {
     runs: |t| if t == Tier::Thorough { 30_000_000 } else { 150_000 },
     enumerated: |_| 0,
     run,
-    rule: "one run in 400 is a C01-style history of real agent runs (the reader fed by the session's reply routing under seeded delays; the router must end up managing exactly the selected statements). Otherwise: running configurations of 0-6 (thorough: 0-12) statements from a grammar: annotation absent / bgpfu-fltr with a parseable expression (12 shapes incl. AS-path regex, PeerAS, literal sets, XML-escaped characters) / unparseable / other text / near-miss prefixes (no space, upper case, leading garbage, padded); decoration /* c */, none, /*c*/, padded; jcmd:active absent / true / false; four attribute orders incl. unrelated attributes and Junos's duplicate xmlns:jcmd; names with XML metacharacters, quotes, non-ASCII; bodies: then reject, nothing, terms, then accept, reject plus another action. Oracle: reader's (name, expression) set == independent selection; a reply containing an annotated active statement of other content may be rejected as a whole. Non-trivial = the selection is non-empty; distinct = distinct event-log hash (the document)",
+    rule: "one run in 400 is a C01-style history of real agent runs (the reader fed by the session's reply routing under seeded delays; the router must end up managing exactly the selected statements). Otherwise: running configurations of 0-6 (thorough: 0-12) statements from a grammar: annotation absent / bgpfu-fltr with a parseable expression (12 shapes incl. AS-path regex, PeerAS, literal sets, XML-escaped characters) / unparseable / other text / near-miss prefixes (no space, upper case, leading garbage, padded); decoration /* c */, none, /*c*/, padded; jcmd:active absent / true / false; four attribute orders incl. unrelated attributes and Junos's duplicate xmlns:jcmd; names with XML metacharacters, quotes, non-ASCII; bodies: then reject, nothing, terms, then accept, reject plus another action. Oracle: reader's (name, expression) set == independent selection; a reply containing an annotated active statement of other content, or two selected statements of one name (1 run in 8 repeats a name), may be rejected as a whole but never answered with a selection that leaves one of them out. Non-trivial = the selection is non-empty; distinct = distinct event-log hash (the document)",
     components: &[("junos-agent policies/fetch.rs candidate reader via the verif facade", "real"), ("router", "model: running-configuration renderer of FakeJunos"), ("whole agent against FakeJunos + FakeIrrd (A-sim)", "real, one run in 400")],
     assumptions: &["decided by generated input documents (no schedule, clock or fault involved)", "expressions are compared after rpsl parse + display"],
     watchdog_s: 30,
